@@ -262,7 +262,10 @@ def gen_case(seed, idx, big=False, force=None, ntsc_ok=True, data_block_min=None
     params.append(dict(gid=P, name=b"USED", type=2, dims=[], values=[npts], locked=True, desc=rand_desc(r, 30)))
     params.append(dict(gid=P, name=b"SCALE", type=4, dims=[], values=[fbits(-r.choice([1.0, 0.01, 0.1]))], locked=True))
     params.append(dict(gid=P, name=b"RATE", type=4, dims=[], values=[fbits(prate)], locked=True))
-    params.append(dict(gid=P, name=b"DATA_START", type=2, dims=[], values=[0], is_data_start=True, locked=True))
+    if idx % 29 == 5:
+        meta["variants"].append("no_point_data_start")      # the header word alone locates the data (readers follow it; the parameter is a copy)
+    else:
+        params.append(dict(gid=P, name=b"DATA_START", type=2, dims=[], values=[0], is_data_start=True, locked=True))
     params.append(dict(gid=P, name=b"FRAMES", type=2, dims=[], values=[nframes], locked=True))
     params.append(dict(gid=P, name=b"LABELS", type=-1, dims=[wl, nlab], values=plabels))
     params.append(dict(gid=P, name=b"DESCRIPTIONS", type=-1, dims=[r.choice([0, 8, 32]), nlab], values=[b""] * nlab))
@@ -377,7 +380,7 @@ def selftest(n=300, seed=7):
             bad.append((i, "frames", len(c["frames"]), len(content["frames"])))
         if (c["npts"], c["nmeas"], c["sub"], c["first"], c["rate_bits"]) != (content["npts"], content["nch"] * content["sub"], content["sub"], content["first"], content["rate_bits"]):
             bad.append((i, "header"))
-        if d["d_hdr"] != d["d_after"] or d["d_par"] != d["d_after"]:
+        if d["d_hdr"] != d["d_after"] or (d["d_par"] != d["d_after"] and not (d["d_par"] is None and "no_point_data_start" in meta.get("variants", []))):
             bad.append((i, "data pointers", d["d_hdr"], d["d_par"], d["d_after"]))
     return bad
 
